@@ -75,7 +75,10 @@ type Supply struct {
 	Name  string   `json:"name,omitempty"`
 	Var   string   `json:"var,omitempty"`   // ="Var": slot props as an object under this name
 	Destr []string `json:"destr,omitempty"` // ="{ a, b }": slot props destructured
-	Kids  []Node   `json:"kids,omitempty"`
+	// WS selects how the destructuring pattern is laid out (see pattern): blanks, none, tabs,
+	// one name per line, blanks around the commas, trailing comma, blanks around the braces.
+	WS   int    `json:"ws,omitempty"`
+	Kids []Node `json:"kids,omitempty"`
 }
 
 // Node is a template node: "el" (marked element), "text", "slot", "inc" (<template include>), and, in a
@@ -104,8 +107,12 @@ type Comp struct {
 
 // Case is the file set + data.
 type Case struct {
-	Page    []Node            `json:"page"`
-	Layout  []Node            `json:"layout,omitempty"` // layouts/base.vuego (applied to the page by default)
+	Page   []Node `json:"page"`
+	Layout []Node `json:"layout,omitempty"` // layouts/base.vuego (applied to the page by default)
+	// Hand: named slot templates written at the top level of the page, after its root element. With
+	// a layout they are handed over to the layout: they fill the same-named <slot> of the layout
+	// file and of every component rendered by the layout whose include tag does not supply that name.
+	Hand    []Supply          `json:"hand,omitempty"`
 	Comps   map[string]Comp   `json:"comps"`
 	Data    map[string]vals.V `json:"data"`
 	Compact bool              `json:"compact,omitempty"` // no whitespace between tags in the files
@@ -221,6 +228,13 @@ func checkRendered(c Case, want []*hx.N) error {
 	if err != nil {
 		return fmt.Errorf("output does not parse: %v", err)
 	}
+	if len(c.Hand) > 0 {
+		// Whether the handed-over templates ALSO render in place, inside the page content, is not
+		// asserted: their markers (prefix hx) are dropped from the content element before comparing.
+		for _, lyc := range hx.Find(gl, func(n *hx.N) bool { return n.Attrs["data-m"] == "lyc" }) {
+			pruneHand(lyc)
+		}
+	}
 	// everything outside marked elements must be empty: no stray text, no unmarked elements
 	// (an un-expanded <slot>/<template>, or supplied content rendered outside its slot)
 	for _, n := range gl {
@@ -261,6 +275,18 @@ func checkRendered(c Case, want []*hx.N) error {
 	return nil
 }
 
+func pruneHand(n *hx.N) {
+	var kept []*hx.N
+	for _, k := range n.Kids {
+		if strings.HasPrefix(k.Attrs["data-m"], "hx") {
+			continue
+		}
+		pruneHand(k)
+		kept = append(kept, k)
+	}
+	n.Kids = kept
+}
+
 func classify(c Case) (bool, []string) {
 	_, st, err := expect(c)
 	if err != nil {
@@ -288,11 +314,12 @@ func TestProp(t *testing.T) {
 	compose.Family(t, rec, "slot")
 	known := kf.Load()
 	ex := exclusions{
-		destructure: known.Open("C06-destructured-slot-props-empty"),
-		frozen:      known.Open("C06-include-in-slot-content-frozen"),
-		tmplRoot:    known.Open("C06-template-root-evaluated-twice"),
-		shortNested: known.Open("C06-shorthand-tag-in-slot-content-not-resolved"),
-		layoutLeak:  known.Open("C06-layout-leaks-instance-slot-content"),
+		destructure:  known.Open("C06-destructured-slot-props-empty"),
+		frozen:       known.Open("C06-include-in-slot-content-frozen"),
+		tmplRoot:     known.Open("C06-template-root-evaluated-twice"),
+		shortNested:  known.Open("C06-shorthand-tag-in-slot-content-not-resolved"),
+		layoutDirect: known.Open("C06-layout-file-slot-props-not-bound"),
+		layoutLeak:   known.Open("C06-layout-leaks-instance-slot-content"),
 	}
 
 	shard, shards := run.Shard()
@@ -325,8 +352,23 @@ func TestProp(t *testing.T) {
 			return true
 		})
 	}
+	hand := 0
 	if done {
-		rec.Exhaustive(fmt.Sprintf("core: slot sets x fallback x props x loop x twice x every supply form per slot x 2 instances (%d cases) + supplied-but-empty content x every form (%d cases)", n, edge))
+		enumHand(ex, rec, func(c Case) bool {
+			hand++
+			if hand%shards != shard {
+				return true
+			}
+			nt, cls := classify(c)
+			if !run.Each(rec, "core", c, nt, cls, check) {
+				done = false
+				return false
+			}
+			return true
+		})
+	}
+	if done {
+		rec.Exhaustive(fmt.Sprintf("core: slot sets x fallback x props x loop x twice x every supply form per slot x 2 instances (%d cases) + supplied-but-empty content x every form (%d cases) + page->layout hand-over: spelling x scope x slot placement x slot in the layout file x own supply (%d cases)", n, edge, hand))
 	}
 
 	if compose.Hung() {
